@@ -6,12 +6,18 @@ Line-protocol driver for the C04 model (Model/Rollup.lean).
   flush <h> <file> <nonEmpty> | <metric>/<start>/<end>/<series>.<field>.<ftype>.<slot>.<val>,... ...
   rollup <h> ivs=<a,b|-> dvs=<a,b|-> avail=<a,b|-> cut=<n|->
   reopen | state
+  rollupf <h> ivs=.. dvs=.. avail=.. fail=<k>   (complete run whose k-th manifest commit fails; the code goes on)
   rollupq <h> ivs=.. dvs=.. avail=..   (one family's job of a concurrent ForceRollup)
   read <tgt>
   arith <src> <tgt> <srcSegTime> <fTime> | <slot> <slot> ...
+  cfgz <src> <localDay,..> <code,..> | <tgt> ... | <off0> <at1> <off1> ...   (the same with time.Local = the zone with
+                                         initial offset off0 (s) and transitions (UTC second, new offset); day numbers are
+                                         wall-clock days, the segment time of a day store is that local midnight)
+  arithz <src> <tgt> <srcSegTime> <fTime> | <slot> ... | <off0> <at1> <off1> ...
 -/
 import LinVerif.Util.Proto
 import LinVerif.Model.Rollup
+import LinVerif.Model.C04Zone
 import LinVerif.Generated.C04
 
 namespace LinVerif.Driver.C04
@@ -28,15 +34,47 @@ structure DS where
   /-- committed target outputs: (interval, output of the merge) -/
   tfiles : List ((Iv × String) × FileData) := []
   dead : Bool := false
+  /-- `time.Local` of the case (`none` = UTC, the `Cal` model) -/
+  zone : Option LinVerif.Interval.Zone := none
+
+/-- the shape of `(*month).CalcFamily` the code has (regenerated) -/
+def byCal : Bool := Generated.C04.monthFamilyIsCalendarDay
 
 /-- segment time of the source store of family code `c` -/
-def DS.segOf (d : DS) (c : Nat) : Int := (d.days.getD (c / 100) d.day) * oneDay
+def DS.segOf (d : DS) (c : Nat) : Int :=
+  match d.zone with
+  | none => (d.days.getD (c / 100) d.day) * oneDay
+  | some z => segOfDayZ z (d.days.getD (c / 100) d.day)
 def hourOf (c : Nat) : Int := ((c % 100 : Nat) : Int)
-def DS.rOf (d : DS) (c : Nat) (tgt : Int) : R := mkR stdCal d.src tgt (d.segOf c) (hourOf c)
+def DS.locOf (d : DS) (c : Nat) (tgt : Int) : Loc :=
+  match d.zone with
+  | none => locate stdCal d.src tgt (d.segOf c) (hourOf c)
+  | some z => locateZ byCal z d.src tgt (d.segOf c) (hourOf c)
+def DS.rOf (d : DS) (c : Nat) (tgt : Int) : R :=
+  match d.zone with
+  | none => mkR stdCal d.src tgt (d.segOf c) (hourOf c)
+  | some z => mkRZ byCal z d.src tgt (d.segOf c) (hourOf c)
 /-- `<target segment time>/<target family>`: where the rollup of family `c` writes for `tgt` -/
 def DS.locKey (d : DS) (c : Nat) (tgt : Int) : String :=
-  let l := locate stdCal d.src tgt (d.segOf c) (hourOf c)
+  let l := d.locOf c tgt
   s!"{l.tSegTime}/{l.tFamily}"
+
+/-- `off0 at1 off1 at2 off2 ...` -/
+def parseZone (ws : List String) : Option LinVerif.Interval.Zone :=
+  let rec pairs : List Int → Option (List (Int × Int))
+    | [] => some []
+    | a :: o :: r => (pairs r).map ((a, o) :: ·)
+    | [_] => none
+  match ws.mapM String.toInt? with
+  | some (off0 :: trs) => (pairs trs).map (LinVerif.Interval.Zone.ofTransitions off0)
+  | _ => none
+
+/-- split a word list at the `|` separators -/
+def splitBars (ws : List String) : List (List String) :=
+  ws.foldr (fun w acc =>
+    match acc with
+    | [] => if w = "|" then [[], []] else [[w]]
+    | g :: gs => if w = "|" then [] :: g :: gs else (w :: g) :: gs) [[]]
 
 def sortNat3 (l : List (Nat × Nat × Nat)) : List (Nat × Nat × Nat) :=
   (l.toArray.qsort (fun a b => a.1 < b.1 || (a.1 == b.1 && (a.2.1 < b.2.1 || (a.2.1 == b.2.1 && a.2.2 < b.2.2))))).toList
@@ -125,10 +163,20 @@ def step (d : DS) (ws : List String) : DS × String :=
         ({ src := s, day := dy, days := dy :: dys, tgts := ts }, "ok")
       else ({}, "bad-calendar")
     | _, _, _ => (d, "bad-op")
+  | "cfgz" :: src :: day :: _hs :: "|" :: rest =>
+    match splitBars rest with
+    | [tgts, zws] =>
+      match src.toInt?, (day.splitOn ",").mapM String.toInt?, tgts.mapM String.toNat?, parseZone zws with
+      | some s, some (dy :: dys), some ts, some z =>
+        if (dy :: dys).all (fun x => decide (x ≥ 0)) then
+          ({ src := s, day := dy, days := dy :: dys, tgts := ts, zone := some z }, "ok")
+        else ({}, "bad-calendar")
+      | _, _, _, _ => (d, "bad-op")
+    | _ => (d, "bad-op")
   | ["loc", h, tgt] =>
     match h.toNat?, tgt.toInt? with
     | some h, some t =>
-      (d, showLoc (locate stdCal d.src t (d.segOf h) (hourOf h)) (d.rOf h t))
+      (d, showLoc (d.locOf h t) (d.rOf h t))
     | _, _ => (d, "bad-op")
   | "flush" :: h :: file :: ne :: "|" :: toks =>
     match h.toNat?, file.toNat?, ne.toNat?, toks.mapM parseBlock with
@@ -187,6 +235,32 @@ def step (d : DS) (ws : List String) : DS × String :=
         let rs := if recs.isEmpty then "-" else ";".intercalate (recs.map showRec)
         ({ d with st := σ, tfiles := d.tfiles ++ o }, s!"recs={rs}")
     | _, _, _, _ => (d, "bad-op")
+  | ["rollupf", h, ivs, dvs, avail, fail] =>
+    -- a complete rollup run in which the manifest commit of record number `fail` FAILS (I/O error): the
+    -- code goes on (the result of that commitEditLog is not looked at), so the run's other records are
+    -- committed as if nothing had happened (`St.applyDropping`)
+    match h.toNat?, (kv? ivs "ivs").bind parseNatList, (kv? dvs "dvs").bind parseNatList,
+      (kv? avail "avail").bind parseNatList, (kv? fail "fail").bind String.toNat? with
+    | some h, some ivs, some dvs, some av, some k =>
+      let all := rollupRecs d.st h ivs (fun i => decide (i ∈ av)) dvs
+      let recs := rollupRecsFailing (Generated.C04.installCommitResult == "checked")
+        (Generated.C04.rollupSourceCommitResult == "checked") d.st h ivs (fun i => decide (i ∈ av)) dvs k
+      let outs : Option (List ((Iv × String) × FileData)) := recs.foldl (fun acc r =>
+        match acc, r with
+        | some l, .merge i inputs =>
+          let fds := inputs.filterMap (fun k => (d.files.find? (·.1 = k)).map (·.2))
+          match mergeFiles Generated.C04.placementByTimestamp (d.rOf h i) fds with
+          | some o => some (l ++ [((i, d.locKey h i), o)])
+          | none => none
+        | acc, _ => acc) (some [])
+      match outs with
+      | none => ({ d with dead := true }, "panic-div0")
+      | some o =>
+        let σ := d.st.applyAll recs
+        let rs := if recs.isEmpty then "-" else ";".intercalate (recs.map showRec)
+        let failed := match all[k]? with | some r => showRec r | none => "-"
+        ({ d with st := σ, tfiles := d.tfiles ++ o }, s!"recs={rs} failed={failed} {showState σ}")
+    | _, _, _, _, _ => (d, "bad-op")
   | ["state"] => (d, showState d.st)
   | ["compact", ks] =>
     -- (outside C04's operations) a compaction of the source family: the files leave level 0
@@ -223,6 +297,23 @@ def step (d : DS) (ws : List String) : DS × String :=
         s!"{ts}:{r.calcSlot ts}:{p}")
       (d, showLoc l r ++ " | " ++ " ".intercalate outs)
     | _, _, _, _, _ => (d, "bad-op")
+  | "arithz" :: src :: tgt :: seg :: ft :: "|" :: rest =>
+    match splitBars rest with
+    | [slots, zws] =>
+      match src.toInt?, tgt.toInt?, seg.toInt?, ft.toInt?, slots.mapM String.toNat?, parseZone zws with
+      | some s, some t, some sg, some f, some sl, some z =>
+        if sg < 0 then (d, "bad-calendar") else
+        let l := locateZ byCal z s t sg f
+        let r := mkRZ byCal z s t sg f
+        if r.intervalRatio = 0 then (d, "panic-div0") else
+        let outs := sl.map (fun (x : Nat) =>
+          let ts := r.getTimestamp (x : Int)
+          let pos := targetPos r.intervalRatio r.baseSlot 0 x
+          let p := if 0 ≤ pos ∧ pos < 4000 then toString pos else "x"
+          s!"{ts}:{r.calcSlot ts}:{p}")
+        (d, showLoc l r ++ " | " ++ " ".intercalate outs)
+      | _, _, _, _, _, _ => (d, "bad-op")
+    | _ => (d, "bad-op")
   | _ => (d, "bad-op")
 
 def main (_args : List String) : IO Unit := Proto.runLoop ({} : DS) step
